@@ -6,7 +6,7 @@
     statement about [run sched (init ...)] for all [sched] is a statement about every
     reachable configuration. *)
 From GV Require Export Conc.Ops Conc.Run.
-From GV Require Export Conc.ProofsSem Conc.ProofsIds Conc.ProofsTm Conc.ProofsBuf Conc.ProofsRdf Conc.ProofsLock Conc.ProofsSeq Conc.ProofsAll Conc.ProofsAdj.
+From GV Require Export Conc.ProofsSem Conc.ProofsIds Conc.ProofsTm Conc.ProofsBuf Conc.ProofsRdf Conc.ProofsRdfPre Conc.ProofsLock Conc.ProofsSeq Conc.ProofsAll Conc.ProofsAdj Conc.ProofsLbl.
 From Coq Require Export ZArith List Bool Sorted.
 Export ListNotations.
 Open Scope Z_scope.
@@ -53,11 +53,11 @@ Theorem buffer_over_limit_pre_refuted :
 Proof. exact buffer_over_limit_pre_refuted_l. Qed.
 Print Assumptions buffer_over_limit_pre_refuted.
 
-Theorem buffer_resize_over_limit_refuted :
-  exists hard progs sched, 0 <= hard /\ k_buf progs = true /\
-    b_alloc (sh (brun sched (binit hard progs))) > hard.
-Proof. exact buffer_resize_over_limit_refuted_l. Qed.
-Print Assumptions buffer_resize_over_limit_refuted.
+Theorem buffer_resize_over_limit_pre_refuted :
+  exists hard progs sched, 0 <= hard /\ progs = [[BAlloc 0 1; BResizePre 0 6]; [BAlloc 1 1; BResizePre 1 6]] /\
+    k_buf progs = true /\ b_alloc (sh (brun sched (binit hard progs))) > hard.
+Proof. exact buffer_resize_over_limit_pre_refuted_l. Qed.
+Print Assumptions buffer_resize_over_limit_pre_refuted.
 
 Theorem sequential_refinement : forall g0 progs sched,
   wf_lpg g0 -> create_only progs = true ->
@@ -70,39 +70,60 @@ Theorem sequential_refinement : forall g0 progs sched,
 Proof. exact sequential_refinement_l. Qed.
 Print Assumptions sequential_refinement.
 
-Theorem rdf_torn_refuted :
-  exists progs sched, progs = [[QInsert 7]; [QRemove 7]] /\ sched = [0; 0; 1; 1; 1; 1; 0; 0; 0]%nat /\
+(** triple store, current code (C20-K1 repaired): the three indexes agree with the primary set in every
+    reachable configuration — no hypothesis on the programs, no hypothesis on the schedule *)
+Theorem rdf_index_consistent : forall q0 progs sched,
+  (forall t, rdf_consistent_at q0 t = true) ->
+  forall t, rdf_consistent_at (sh (qrun sched (qinit q0 progs))) t = true.
+Proof. exact rdf_index_consistent_l. Qed.
+Print Assumptions rdf_index_consistent.
+
+(** triple store before the repair ([qop_pre]: four separately locked updates) *)
+Theorem rdf_torn_pre_refuted :
+  exists progs sched, progs = [[QInsertPre 7]; [QRemovePre 7]] /\ sched = [0; 0; 1; 1; 1; 1; 0; 0; 0]%nat /\
     k_rdf progs = true /\
-    let c := qrun sched (qinit rdf0 progs) in
+    let c := qrun_pre sched (qinit_pre rdf0 progs) in
     finished c = true /\ zmem 7 (q_prim (sh c)) = false /\
     zmem 7 (q_s (sh c)) = true /\ zmem 7 (q_p (sh c)) = true /\ zmem 7 (q_o (sh c)) = true /\
     rdf_consistent_at (sh c) 7 = false.
-Proof. exact rdf_torn_refuted_l. Qed.
-Print Assumptions rdf_torn_refuted.
+Proof. exact rdf_torn_pre_refuted_l. Qed.
+Print Assumptions rdf_torn_pre_refuted.
 
-Theorem rdf_index_consistent_outside_K : forall q0 progs sched,
+Theorem rdf_index_consistent_pre_outside_K : forall q0 progs sched,
   (forall t, rdf_consistent_at q0 t = true) -> k_rdf progs = false ->
-  let c := qrun sched (qinit q0 progs) in
+  let c := qrun_pre sched (qinit_pre q0 progs) in
   finished c = true -> forall t, rdf_consistent_at (sh c) t = true.
-Proof. exact rdf_index_consistent_outside_K_l. Qed.
-Print Assumptions rdf_index_consistent_outside_K.
+Proof. exact rdf_index_consistent_pre_outside_K_l. Qed.
+Print Assumptions rdf_index_consistent_pre_outside_K.
 
-Theorem label_torn_refuted :
-  exists progs sched, progs = [[GAddLabel 0 2]; [GDeleteNode 0]] /\ sched = [0; 1; 1; 1; 0; 0; 0]%nat /\
+(** the label index agrees with the node labels after every complete run: every number of threads, every
+    schedule, EVERY program (current code, C20-K2 repaired); and the result is again a well-formed
+    starting graph *)
+Theorem label_index_consistent : forall g0 progs sched,
+  wf_lbl g0 ->
+  let c := grun sched (ginit g0 progs) in
+  finished c = true ->
+  (forall l n, In (l, n) (g_lindex (sh c)) <-> node_live (sh c) n = true /\ In l (labels_of (sh c) n)) /\ wf_lbl (sh c).
+Proof. exact label_index_consistent_l. Qed.
+Print Assumptions label_index_consistent.
+
+(** label operations before the repair of C20-K2/K7 ([gop_pre]: four separately locked steps) *)
+Theorem label_torn_pre_refuted :
+  exists progs sched, progs = [[PAddLabel 0 2]; [PDeleteNode 0]] /\ sched = [0; 1; 1; 1; 0; 0; 0]%nat /\
     k_label progs = true /\
-    let c := grun sched (ginit g_one_node progs) in
+    let c := grun_pre sched (ginit_pre g_one_node progs) in
     finished c = true /\ node_live (sh c) 0 = false /\ zmem 0 (by_label (sh c) 2) = true.
-Proof. exact label_torn_refuted_l. Qed.
-Print Assumptions label_torn_refuted.
+Proof. exact label_torn_pre_refuted_l. Qed.
+Print Assumptions label_torn_pre_refuted.
 
-Theorem label_addrem_torn_refuted :
-  exists progs sched, progs = [[GAddLabel 0 2]; [GRemoveLabel 0 2]] /\ sched = [0; 0; 0; 1; 1; 1; 1; 0]%nat /\
+Theorem label_addrem_torn_pre_refuted :
+  exists progs sched, progs = [[PAddLabel 0 2]; [PRemoveLabel 0 2]] /\ sched = [0; 0; 0; 1; 1; 1; 1; 0]%nat /\
     k_label progs = true /\
-    let c := grun sched (ginit g_one_node progs) in
-    finished c = true /\ outputs c = [[(GAddLabel 0 2, OB true)]; [(GRemoveLabel 0 2, OB true)]] /\
+    let c := grun_pre sched (ginit_pre g_one_node progs) in
+    finished c = true /\ outputs c = [[(PAddLabel 0 2, OB true)]; [(PRemoveLabel 0 2, OB true)]] /\
     zmem 2 (labels_of (sh c) 0) = false /\ zmem 0 (by_label (sh c) 2) = true.
-Proof. exact label_addrem_torn_refuted_l. Qed.
-Print Assumptions label_addrem_torn_refuted.
+Proof. exact label_addrem_torn_pre_refuted_l. Qed.
+Print Assumptions label_addrem_torn_pre_refuted.
 
 Theorem edge_torn_refuted :
   exists progs sched, progs = [[GCreateEdge 2 0]; [GDeleteEdge 2]] /\ sched = [0; 0; 0; 1; 1; 1; 1; 0; 0]%nat /\
@@ -153,10 +174,10 @@ Theorem wal_rotation_order_refuted :
 Proof. exact wal_rotation_order_refuted_l. Qed.
 Print Assumptions wal_rotation_order_refuted.
 
-Theorem label_delete_deadlock_refuted :
-  exists sched, lstuck (lrun sched (linit [gtrace (GAddLabel 0 1); gtrace (GDeleteNode 0)])) = true.
-Proof. exact label_delete_deadlock_refuted_l. Qed.
-Print Assumptions label_delete_deadlock_refuted.
+Theorem label_delete_deadlock_pre_refuted :
+  exists sched, lstuck (lrun sched (linit [gtrace_pre (PAddLabel 0 1); gtrace_pre (PDeleteNode 0)])) = true.
+Proof. exact label_delete_deadlock_pre_refuted_l. Qed.
+Print Assumptions label_delete_deadlock_pre_refuted.
 
 Theorem rank_order_no_deadlock : forall progs sched,
   Forall (fun p => disciplined p = true) progs ->
@@ -192,15 +213,14 @@ Print Assumptions wal_log_complete.
     harness enumerates on the real code.  [lpg_lin_ok] etc. = the cross-checks hold and outputs and
     final observation are those of SOME sequential order of the operations. *)
 Theorem lpg_pairs_linearizable : forall a b sched,
-  In a lpg_templates -> In b lpg_templates ->
-  k_label [[a]; [b]] = false -> k_edge_torn 2 [[a]; [b]] = false ->
+  In a lpg_templates -> In b lpg_templates -> k_edge_torn 2 [[a]; [b]] = false ->
   let c := grun sched (ginit (gsetup lpg_setup) [[a]; [b]]) in
   finished c = true -> lpg_lin_ok [[a]; [b]] c = true.
 Proof. exact lpg_pairs_linearizable_l. Qed.
 Print Assumptions lpg_pairs_linearizable.
 
 Theorem rdf_pairs_linearizable : forall a b sched,
-  In a rdf_templates -> In b rdf_templates -> k_rdf [[a]; [b]] = false ->
+  In a rdf_templates -> In b rdf_templates ->
   let c := qrun sched (qinit (rdf_of [0; 2]) [[a]; [b]]) in
   finished c = true -> rdf_lin_ok [[a]; [b]] c = true.
 Proof. exact rdf_pairs_linearizable_l. Qed.
@@ -219,6 +239,9 @@ Proof. exact buf_programs_linearizable_l. Qed.
 Print Assumptions buf_programs_linearizable.
 
 (** non-vacuity: the hypotheses are met by contended programs, and complete runs exist *)
+Example nv_safe_resize : safe_progs [[BAlloc 0 1; BResize 0 6]; [BAlloc 1 1; BResize 1 6]] = true /\
+  b_alloc (sh (brun [0; 0; 1; 1; 0; 1; 0; 1; 0; 1]%nat (binit 10 [[BAlloc 0 1; BResize 0 6]; [BAlloc 1 1; BResize 1 6]]))) = 7.
+Proof. vm_compute. split; reflexivity. Qed.
 Example nv_safe_contended :
   safe_progs [[BAlloc 0 6; BRelease 0]; [BAlloc 1 6; BRelease 1]] = true /\
   let c := brun [0; 1; 1; 0; 0; 0; 1; 1; 1; 1]%nat (binit 10 [[BAlloc 0 6; BRelease 0]; [BAlloc 1 6; BRelease 1]]) in
@@ -226,9 +249,9 @@ Example nv_safe_contended :
   /\ b_alloc (sh c) = 0.
 Proof. vm_compute. repeat split; reflexivity. Qed.
 Example nv_rdf_outside_K :
-  k_rdf [[QInsert 1; QInsert 2]; [QInsert 1; QRemove 3]; [QRemove 3]] = false /\
+  k_rdf [[QInsertPre 1; QInsertPre 2]; [QInsertPre 1; QRemovePre 3]; [QRemovePre 3]] = false /\
   (forall t, rdf_consistent_at (rdf_of [3]) t = true) /\
-  finished (qrun (round_robin 3 12) (qinit (rdf_of [3]) [[QInsert 1; QInsert 2]; [QInsert 1; QRemove 3]; [QRemove 3]])) = true.
+  finished (qrun_pre (round_robin 3 12) (qinit_pre (rdf_of [3]) [[QInsertPre 1; QInsertPre 2]; [QInsertPre 1; QRemovePre 3]; [QRemovePre 3]])) = true.
 Proof.
   split; [vm_compute; reflexivity|]. split; [|vm_compute; reflexivity].
   intros t. unfold rdf_consistent_at, idx_ok, rdf_of. simpl. unfold zcount, zmem. simpl.
@@ -242,13 +265,16 @@ Example nv_disciplined : Forall (fun p => disciplined p = true) [gtrace (GDelete
   /\ In (gtrace (GDeleteNode 0)) table_traces.
 Proof. split; [repeat constructor|vm_compute; tauto]. Qed.
 Example nv_pairs : In (GAddLabel 0 2) lpg_templates /\ In (GCreateEdge 0 1) lpg_templates /\
-  k_label [[GAddLabel 0 2]; [GCreateEdge 0 1]] = false /\ k_edge_torn 2 [[GAddLabel 0 2]; [GCreateEdge 0 1]] = false /\
+  k_edge_torn 2 [[GAddLabel 0 2]; [GCreateEdge 0 1]] = false /\
   finished (grun (round_robin 2 6) (ginit (gsetup lpg_setup) [[GAddLabel 0 2]; [GCreateEdge 0 1]])) = true.
 Proof. vm_compute. tauto. Qed.
 Example nv_adj : wf_adj lpg0 /\ wf_adj g_three_nodes /\
   deletes_below (g_next_edge g_three_nodes) [[GCreateEdge 2 0; GDeleteEdge 0]; [GDeleteEdge 0; GCreateEdge 0 2]; [GDeleteEdge 1]] = true /\
   finished (grun (round_robin 3 12) (ginit g_three_nodes [[GCreateEdge 2 0; GDeleteEdge 0]; [GDeleteEdge 0; GCreateEdge 0 2]; [GDeleteEdge 1]])) = true.
 Proof. split; [exact wf_adj_lpg0|]. split; [exact wf_adj_three_nodes|]. exact nv_adjacency. Qed.
+Example nv_lbl : wf_lbl lpg0 /\ wf_lbl g_three_nodes /\
+  finished (grun (round_robin 3 12) (ginit g_three_nodes [[GAddLabel 0 2; GDeleteNode 1]; [GDeleteNode 0; GCreateNode [1; 3]]; [GRemoveLabel 0 1; GAddLabel 3 2]])) = true.
+Proof. split; [exact wf_lbl_lpg0|]. split; [exact wf_lbl_three_nodes|exact nv_label_index]. Qed.
 Example nv_commits :
   let c := mrun (round_robin 2 10) (minit [[MBegin 0; MCommitOp 0]; [MBegin 0; MCommitOp 0; MCommitOp 0]]) in
   finished c = true /\ all_commit_epochs c = [1; 2].
